@@ -19,7 +19,7 @@ from mathy_core.tokenizer import Tokenizer  # noqa: E402
 
 NAMES = ["Constant", "Variable", "Plus", "Minus", "Multiply", "Divide", "Exponent", "Factorial", "OpenParen", "CloseParen", "Function", "Equal"]
 TEXT = {"Plus": "+", "Minus": "-", "Multiply": "*", "Divide": "/", "Exponent": "^", "Factorial": "!", "OpenParen": "(", "CloseParen": ")", "Function": "sgn", "Equal": "="}
-CONSTS = ["2", "3", "0.5", "4", "7", "1.5"]
+CONSTS = ["2", "3", "0.5", "4", "7", "1.5", "9007199254740993", "12345678901234567890123"]
 VARS = list("xyzabc")
 ENV = {"x": Fraction(3), "y": Fraction(2), "z": Fraction(5), "a": Fraction(-1, 2), "b": Fraction(7), "c": Fraction(1, 3)}
 
@@ -213,6 +213,7 @@ def check_c03(tier, seed):
 
 
 ALPHABET = ["1", "2", ".", "x", "y", "+", "-", "*", "/", "^", "!", "=", "(", ")", " ", "s", "g", "n", "$"]
+TARGETED = ["Sgn(x)", "SGN(4)", "2SGN(4) + 1", "-SGN(1) / SGN(2)", "sGn(x)", "sgn(sgn(x))", "sgn()", "sgn(", "x!", "3!!", "2^", "^2", "(((((x)))))", "((x)", "1.2.3", "1..2", ".", "4x + 2 ", " ", "", "x = ", "= x", "x = y = z", "9007199254740993 - 9007199254740992", "1" * 400, "(" * 30, "(" * 30 + "x", "sgn" * 5]
 ALLOWED = (ParserException, ValueError)
 
 
@@ -237,6 +238,16 @@ def check_c10(tier, seed):
                     failing.append(s)
             except Exception as e:  # noqa: BLE001
                 fails.append({"clause": "closed-error-contract", "detail": f"`{s}` raised {type(e).__name__}: {e}"})
+    for s in TARGETED:
+        cases += 1
+        try:
+            t = ExpressionParser().parse(s)
+            if not isinstance(t, E.MathExpression):
+                fails.append({"clause": "returns-a-tree", "detail": f"`{s[:40]}` returned {t!r}"})
+        except ALLOWED:
+            pass
+        except Exception as e:  # noqa: BLE001
+            fails.append({"clause": "closed-error-contract", "detail": f"`{s[:40]}` raised {type(e).__name__}: {str(e)[:80]}"})
     # deep nesting (bounded) must not hit the recursion limit / internal errors
     for depth in (10, 50):
         s = "(" * depth + "x" + ")" * depth
@@ -267,6 +278,15 @@ def check_c10(tier, seed):
                 fails.append({"clause": "no-sticky-state", "detail": f"parsing `{bad}` twice on one parser: {first} then {again}"})
             if after != fresh:
                 fails.append({"clause": "no-sticky-state", "detail": f"after failing on `{bad}`, `{good}` gives {after}; a fresh parser gives {fresh}"})
+    # many failing parses on one parser (unclosed groups, dangling operators), then valid inputs not seen before
+    p = ExpressionParser()
+    for k in range(12):
+        for bad in ("(" * 30 + f"x{'+' * (k % 3)}", f"{k}+", f"({k}x", f"{k} {k}"):
+            outcome(p, bad)
+    for good in ("(a + 1)", "2 * (b + (c + 3))", "sgn(d)", "((e))", "f^(g + 1)"):
+        cases += 1
+        if outcome(p, good) != outcome(ExpressionParser(), good):
+            fails.append({"clause": "no-sticky-state", "detail": f"after many failed parses `{good}` gives {outcome(p, good)}; a fresh parser gives {outcome(ExpressionParser(), good)}"})
     seen = {}
     for f in fails:
         seen.setdefault((f["clause"], f["detail"][:50]), f)
